@@ -52,6 +52,11 @@ def random_script(rng: random.Random, case: dict, kinds=None,
             script.append({'at': at, 'cmd': 'force_trigger_tasks',
                            'args': {'tasks': some_ids(rng, gt, globs=False),
                                     'flow': flow}})
+            if 'reload' in kinds and rng.random() < 0.2:
+                # a reload requested while the triggered task is on its way
+                # to job submission
+                script.append({'at': at + rng.choice([0, 0, 1]),
+                               'cmd': 'reload_workflow', 'args': {}})
         elif k == 'set':
             args = {'tasks': some_ids(rng, gt, globs=False),
                     'flow': rng.choice([['all'], ['all'], ['new'], ['1']])}
